@@ -165,6 +165,8 @@ impl<F: PathFetcher> PathSet<F> {
 
             async move {
                 let maintain = async {
+                    #[cfg(feature = "verif-hooks")]
+                    crate::verif::yield_point("w.start").await;
                     // Update the managed path tuple on start
                     {
                         let Some(manager) = self.manager.upgrade() else {
@@ -186,6 +188,8 @@ impl<F: PathFetcher> PathSet<F> {
                             }
                             // Maintenance Tick
                             () = tokio::time::sleep(next_tick) => {
+                                #[cfg(feature = "verif-hooks")]
+                                crate::verif::yield_point("w.tick").await;
                                 let Some(manager) = self.manager.upgrade() else {
                                     return "manager dropped";
                                 };
@@ -196,6 +200,8 @@ impl<F: PathFetcher> PathSet<F> {
                             }
                             // Issue Notifications
                             issue = self.internal.issue_rx.recv() => {
+                                #[cfg(feature = "verif-hooks")]
+                                crate::verif::yield_point("w.issue").await;
                                 let Some(manager) = self.manager.upgrade() else {
                                     return "manager dropped";
                                 };
@@ -209,12 +215,16 @@ impl<F: PathFetcher> PathSet<F> {
                 };
 
                 let exit_reason = maintain.await;
+                #[cfg(feature = "verif-hooks")]
+                crate::verif::yield_point("w.exit.decided").await;
 
                 // If manager still exists, drop the PathSet entry
                 if let Some(mgr) = self.manager.upgrade() {
                     mgr.stop_managing_paths(self.src, self.dst);
                 }
 
+                #[cfg(feature = "verif-hooks")]
+                crate::verif::yield_point("w.exit.after_stop").await;
                 // Ensure no waiting tasks remain
                 let mut sync_guard = self.shared.sync.lock().unwrap();
                 sync_guard.ongoing_start = None;
@@ -403,6 +413,8 @@ impl<F: PathFetcher> PathSet<F> {
 
             notify_guard.ongoing_start = Some(now);
         }
+        #[cfg(feature = "verif-hooks")]
+        crate::verif::yield_point("f.after_set_ongoing").await;
 
         let path_fetch = async {
             let fetched_paths = self.fetch_and_filter_paths(manager).await?;
@@ -418,6 +430,8 @@ impl<F: PathFetcher> PathSet<F> {
         };
 
         let result = path_fetch.await;
+        #[cfg(feature = "verif-hooks")]
+        crate::verif::yield_point("f.after_fetch").await;
         match result {
             // Successful fetch and ingestion, at least one path available
             Ok(fetched_paths) => {
@@ -468,6 +482,8 @@ impl<F: PathFetcher> PathSet<F> {
         // Always update ranking, and possibly active path
         self.rerank(now, manager);
         self.maybe_update_active_path(now, manager);
+        #[cfg(feature = "verif-hooks")]
+        crate::verif::yield_point("f.before_notify").await;
 
         // Set update state
         {
@@ -477,6 +493,8 @@ impl<F: PathFetcher> PathSet<F> {
             notify_guard.completed_notify.notify_waiters();
         }
 
+        #[cfg(feature = "verif-hooks")]
+        crate::verif::yield_point("f.after_notify").await;
         tracing::debug!("Completed path refetch and update");
     }
 
@@ -923,7 +941,11 @@ impl PathSetHandle {
             }
         }
 
+        #[cfg(feature = "verif-hooks")]
+        crate::verif::yield_point("a.before_wait").await;
         self.await_ongoing_update().await;
+        #[cfg(feature = "verif-hooks")]
+        crate::verif::yield_point("a.after_wait").await;
 
         self.shared.active_path.load()
     }
@@ -940,6 +962,8 @@ impl PathSetHandle {
 
             notify_guard.completed_notify.clone().notified_owned()
         };
+        #[cfg(feature = "verif-hooks")]
+        crate::verif::yield_point("a.registered").await;
 
         finish_notification.await;
     }
@@ -2082,5 +2106,21 @@ mod tests {
                 assert_eq!(kept_new, 9, "Should have taken 9 new paths");
             }
         }
+    }
+}
+
+#[cfg(feature = "verif-hooks")]
+impl<F: PathFetcher> PathSet<F> {
+    /// verif forward
+    pub async fn verif_fetch_and_update(&mut self, now: SystemTime, manager: &MultiPathManager<F>) {
+        self.fetch_and_update(now, manager).await
+    }
+    /// verif accessor: (fingerprint, expiry, reliability score at now)
+    pub fn verif_cached(&self, now: SystemTime) -> Vec<(DpPathFingerprint, Option<u32>, f32)> {
+        self.internal
+            .cached_paths
+            .iter()
+            .map(|p| (p.path.fingerprint(), p.path.expiration(), p.reliability.score(now).value()))
+            .collect()
     }
 }
